@@ -39,7 +39,10 @@ def run_property(pid: str, tier: str) -> int:
         if tier == "thorough":
             from selftest import audit
             audit.run_for_property(pid, rep)
-        return rep.finish(prog, getattr(mod, "EXPLANATION", ""))
+        code = rep.finish(prog, getattr(mod, "EXPLANATION", ""))
+        if getattr(rep, "audit_failed", False) and code == 0:
+            code = 2
+        return code
     except AnalysisError as e:
         print(f"ANALYSIS-ERROR property={pid}: {e}")
         return 2
